@@ -27,6 +27,7 @@ var (
 	fMaxViol  = flag.Int("sim.maxviol", 3, "stop after this many violations")
 	fMutation = flag.String("sim.mutation", "", "internal: harness self-test mutation")
 	fKnown    = flag.String("sim.known", "", "comma separated oracle classes that are listed known findings")
+	fHashes   = flag.Bool("sim.hashes", false, "record the event-log hash of every run (determinism suite)")
 )
 
 type ReplayFile struct {
@@ -66,6 +67,7 @@ type WorkerOut struct {
 	Violations []*ReplayFile     `json:"violations"`
 	KnownHits  map[string]int    `json:"known_hits"`
 	HarnessErr []string          `json:"harness_errors"`
+	Hashes     []string          `json:"hashes,omitempty"`
 }
 
 func disabledSet() map[string]bool {
@@ -171,6 +173,9 @@ func searchMode(t *testing.T) {
 		}
 		if res.Nontrivial {
 			nt[res.LogHash+res.StateHash] = true
+		}
+		if *fHashes {
+			out.Hashes = append(out.Hashes, fmt.Sprintf("%d:%s:%d", r, res.LogHash, len(res.Tape)))
 		}
 		if res.HarnessErr != "" {
 			out.HarnessErr = append(out.HarnessErr, fmt.Sprintf("run %d: %s", r, res.HarnessErr))
